@@ -8,6 +8,7 @@ base, so that two spellings of one loop or one guard compare equal:
   N4  `if (c) return; rest...` at the end of a void function -> `if (!c) { rest... }`
 Nodes are copied; the cached AST is never modified."""
 import copy
+import re
 
 from .cfront import strip, walk, qtype, render
 
@@ -268,6 +269,63 @@ def _subst(node, pmap, line=None):
         if a.get('kind') == 'UnaryOperator' and a.get('opcode') == '&':
             out['inner'] = [a['inner'][0]]
             out['isArrow'] = False
+        elif a.get('kind') == 'BinaryOperator' and a.get('opcode') == '+' and '*' in ((a.get('type') or {}).get('qualType') or ''):
+            # (P + i)->m  is  P[i].m
+            pt = (a.get('type') or {}).get('qualType', '')
+            et = re.sub(r'\s*\*\s*(const|restrict|volatile|\s)*$', '', pt)
+            out['inner'] = [{'kind': 'ArraySubscriptExpr', 'type': {'qualType': et}, '_line': a.get('_line'), 'inner': list(a['inner'])}]
+            out['isArrow'] = False
+    return out
+
+
+def dealiased(fn):
+    """a copy of the function in which locals that merely name a value or a place - declared once with an initialiser,
+    never assigned again, address never taken, of pointer or arithmetic type, not a loop counter - are replaced by their
+    initialiser: `ri = &(r->ri_sei); dt = r->dt; p = particles + i;  ri->sindt = sin(ri->OMEGA*dt); p->x = ..` reads
+    `r->ri_sei.sindt = sin(r->ri_sei.OMEGA*r->dt); r->particles[i].x = ..`. Like any let-inlining over memory this
+    assumes that what the initialiser reads is not changed between the declaration and the use; it is meant for rules
+    that compare the shape of a few statements, and they are expected to fail closed when the shape is not found."""
+    from . import cfront as _cf
+    b = _cf.body(fn)
+    if b is None:
+        return fn
+    mutated, addr = set(), set()
+    for e in walk(b):
+        if _cf.is_assign(e):
+            l = strip(e['inner'][0])
+            if l.get('kind') == 'DeclRefExpr':
+                mutated.add(l['referencedDecl'].get('id'))
+        if e.get('kind') == 'UnaryOperator' and e.get('opcode') in ('++', '--', '&', '++post', '--post'):
+            l = strip(e['inner'][0])
+            if l.get('kind') == 'DeclRefExpr':
+                (addr if e.get('opcode') == '&' else mutated).add(l['referencedDecl'].get('id'))
+    loopvars = set()
+    for f in walk(b):
+        if f.get('kind') == 'ForStmt' and f['inner'][0] and f['inner'][0].get('kind') == 'DeclStmt':
+            for d in f['inner'][0].get('inner', []):
+                if d.get('kind') == 'VarDecl':
+                    loopvars.add(d.get('id'))
+    names = {}
+    for d in walk(b):
+        if d.get('kind') == 'VarDecl':
+            names.setdefault(d.get('name'), []).append(d)
+    pmap = {}
+    for d in walk(b):
+        if d.get('kind') != 'VarDecl' or 'init' not in d or d.get('id') in mutated | addr | loopvars:
+            continue
+        t = _cf.qtype(d)
+        if '[' in t or ((t.startswith('struct') or t.startswith('const struct') or t.startswith('union')) and '*' not in t):
+            continue
+        init = [c for c in d.get('inner', []) if c.get('kind') not in ('FullComment',)]
+        if not init or init[-1].get('kind') == 'InitListExpr':
+            continue
+        if any(x.get('kind') == 'CallExpr' for x in walk(init[-1])):
+            continue        # a value computed by a call is not a name for a place
+        pmap[d['id']] = _subst(init[-1], pmap)
+    if not pmap:
+        return fn
+    out = dict(fn)
+    out['inner'] = [(_subst(c, pmap) if c.get('kind') == 'CompoundStmt' else c) for c in fn.get('inner', [])]
     return out
 
 
